@@ -58,8 +58,9 @@ def state(**kwargs):
     for k, v in kwargs.items():
         setattr(module, k, v)
 
-    yield
-
-    # Return settings to their previous values
-    for k, v in before.items():
-        setattr(module, k, v)
+    try:
+        yield
+    finally:
+        # Return settings to their previous values (also when the managed block raises)
+        for k, v in before.items():
+            setattr(module, k, v)
